@@ -263,6 +263,9 @@ def binding_selfcheck(ctx, module, events, n=3, mutate=corrupt_event, const=None
         if len(cands) >= n:
             break
     if not cands:
+        if ctx.violations:
+            ctx.binding_selfcheck = {"skipped": "no accepted event left to corrupt (violations present)"}
+            return
         raise MachineryError("binding self-check: no corruptible event")
     for i, c in enumerate(cands):
         c["id"] = 900000000 + i
